@@ -129,7 +129,7 @@ def check_obligations(prop_file: str):
         if b.startswith("Closed under"):
             axioms = []
         else:
-            axioms = re.findall(r"(?m)^([A-Za-z_][\w.']*)\s*:", b)
+            axioms = [a for a in re.findall(r"(?m)^([A-Za-z_][\w.']*)", b) if a != "Axioms"]
         badax = [a for a in axioms if a not in ALLOWED_AXIOMS]
         out["theorems"].append({"name": name, "axioms": axioms})
         if badax:
